@@ -188,11 +188,24 @@ class SupertrendRef:
         self.pu = self.pl = None
         self.pd = 1
         self.near_ties = 0
+        self.exact_ties = 0
+        # exact region: a prefix of candles that are all flat at one price P on the storage grid. There every true range, hence ATR,
+        # is exactly 0 and both bands are exactly P: the close TOUCHES the previous band and does not break it, so this is decided
+        # exactly (no near-tie latitude): the direction stays what it was and trend == P.
+        k = -1
+        if c and round(c[0], H) == c[0]:
+            while k + 1 < len(c) and h[k + 1] == l[k + 1] == c[k + 1] == c[0]:
+                k += 1
+        self.flat_upto = k
 
     def candidates(self, i):
         a = self.atr[i]
         if not ok(a):
             return None
+        if i <= self.flat_upto:
+            P = Num(self.c[i], 0.0)
+            self.exact_ties += 1
+            return [(1 if self.pl is None else self.pd, P, P)]
         mid = Num.of((self.h[i] + self.l[i]) / 2).st(self.H)
         up0, lo0 = mid + self.mult * a, mid - self.mult * a
         if self.pl is None:
@@ -243,7 +256,9 @@ class SupertrendRef:
                 best, best_d = (d, up, lo), dist
         d, up, lo = best
         self.pu, self.pl, self.pd = up, lo, d
-        trend = (lo if d == 1 else up).st(self.r)
+        trend = (lo if d == 1 else up)
+        if not (i <= self.flat_upto and round(trend.v, self.r) == trend.v):
+            trend = trend.st(self.r)
         return {"trend": trend, "direction": d, "long": trend if d == 1 else None, "short": trend if d == -1 else None}, len(cands)
 
 
@@ -414,11 +429,14 @@ def rma_any(xs, p, r):
 
 
 def obv(c, v, r):
+    """running sum; an implementation that adds to its stored (rounded) previous value accumulates one rounding per step when the
+    volumes are not multiples of 10^-r (integer volumes stay exact)"""
+    ints = all(float(x).is_integer() for x in v)
     out = [Num.of(v[0]).st(r)]
     tot = v[0]
     for i in range(1, len(c)):
         tot += v[i] if c[i] > c[i - 1] else (-v[i] if c[i] < c[i - 1] else 0)
-        out.append(Num.of(tot).st(r))
+        out.append(Num.of(tot).st(r) if ints else Num(tot, abs(tot) * EPS * (i + 1) + (i + 1) * rho(r)))
     return out
 
 
